@@ -4,6 +4,8 @@ package main
 
 import (
 	"fmt"
+	"os"
+
 	"go/types"
 	"sort"
 	"strings"
@@ -132,6 +134,39 @@ func (ld *Loaded) verifyFunc(fn *ssa.Function) (res *FuncResult) {
 			ex.obs = append(ex.obs, c)
 		}
 	}
+	// entry-heap well-formedness: every reference stored anywhere in the heap when the function starts was
+	// allocated before (<= alloc@0). Added to every obligation.
+	{
+		var axioms []*Term
+		var keys []string
+		for k := range st.sorts {
+			keys = append(keys, k)
+		}
+		sort.Strings(keys)
+		a0 := ex.entry.alloc()
+		for _, k := range keys {
+			srt := st.sorts[k]
+			if !(strings.HasPrefix(k, "H:") || strings.HasPrefix(k, "M:")) || srt.K != KArray {
+				continue
+			}
+			v := Var(k+"@0", srt)
+			r := BoundVar("wf", IntS)
+			if srt.B == IntS {
+				axioms = append(axioms, Forall([]*Term{r}, IntLe(Select(v, r), a0)))
+			} else if srt.B.K == KArray && srt.B.B == IntS && srt.B.A == BVS(64) {
+				i := BoundVar("wfi", BVS(64))
+				axioms = append(axioms, Forall([]*Term{r, i}, IntLe(Select(Select(v, r), i), a0)))
+			}
+		}
+		for _, o := range ex.obs {
+			o.Hyps = append(o.Hyps, axioms...)
+		}
+	}
+	if os.Getenv("GOVC_DEBUG") != "" {
+		for _, r := range ex.callLog {
+			fmt.Printf("  [calllog] %s guard=%s\n", r.Key, truncate(r.Guard.String(), 120))
+		}
+	}
 	// obligation names are unique: repeated sites get an ordinal suffix
 	cnt := map[string]int{}
 	for _, o := range ex.obs {
@@ -166,6 +201,7 @@ func (ex *Exec) frameObligations(fr *Frame, fc *FuncContract, final *State, entr
 		refs []*Term
 	}
 	allowed := map[string]*allow{}
+	wholeKeys := map[string]bool{}
 	all := false
 	add := func(key string, ref *Term) {
 		a := allowed[key]
@@ -182,6 +218,10 @@ func (ex *Exec) frameObligations(fr *Frame, fc *FuncContract, final *State, entr
 			continue // mentions the result: objects reachable only from the result are fresh or covered by ensures
 		}
 		switch m.Kind {
+		case ModAllOfType:
+			for _, k := range ex.typeKeys(&env, m) {
+				wholeKeys[k.key] = true
+			}
 		case ModAll:
 			all = true
 		case ModField, ModAllFields:
@@ -231,7 +271,7 @@ func (ex *Exec) frameObligations(fr *Frame, fc *FuncContract, final *State, entr
 	}
 	sort.Strings(keys)
 	for _, k := range keys {
-		if k == allocKey {
+		if k == allocKey || wholeKeys[k] {
 			continue
 		}
 		srt := final.sorts[k]
